@@ -252,12 +252,12 @@ theorem runs_openDict (hI : MemoOnly I) (p : Nat) (s : σ) :
     simp [runFrom, exec, push, splitAtMark, isMark, assignAll, allocObj]
 
 /-- A list: created empty, memoized, filled by the APPEND(S) groups. -/
-theorem pushesG_list (hI : MemoOnly I) (hlr : mc.listRef = false) (p : Nat) (pb : Bytes) (xs : List PyObj) (fs : List Bytes)
+theorem pushesG_list (hI : MemoOnly I) (hlr : mc.listRef = false) (py : Bool) (p : Nat) (pb : Bytes) (xs : List PyObj) (fs : List Bytes)
     {s s1 s' : σ} {vp : GoVal → Prop} (hput : PutOK mc hook c I pb vp s s1) (hvp : vp (.list []))
     (hf : FragsGN mc hook c I fs (xs.map fun x => [x]) s1 s') :
-    PushesG mc hook c I ((if p ≥ 1 then [93] else [40, 108]) ++ pb ++ cpBatchList p fs) (.list xs) s s' := by
+    PushesG mc hook c I ((if p ≥ 1 then [93] else [40, 108]) ++ pb ++ cpBatchList py p fs) (.list xs) s s' := by
   have hlen : fs.length = xs.length := by simpa using hf.length
-  obtain ⟨gs, e1, e2⟩ := batchList_groups p (fs.zip xs)
+  obtain ⟨gs, e1, e2⟩ := batchList_groups py p (fs.zip xs)
   rw [List.map_fst_zip (by omega)] at e1
   have hsnd : (fs.zip xs).map (·.2) = xs := List.map_snd_zip (by omega)
   have hfst : (fs.zip xs).map (·.1) = fs := List.map_fst_zip (by omega)
@@ -287,13 +287,13 @@ theorem pushesG_list (hI : MemoOnly I) (hlr : mc.listRef = false) (p : Nat) (pb 
       exact hk
 
 /-- A dict: created empty in the heap, memoized, filled in place by the SETITEM(S) groups. -/
-theorem pushesG_dict (hI : MemoOnly I) (p : Nat) (pb : Bytes) (kvs : List (PyObj × PyObj)) (fs : List Bytes)
+theorem pushesG_dict (hI : MemoOnly I) (py : Bool) (p : Nat) (pb : Bytes) (kvs : List (PyObj × PyObj)) (fs : List Bytes)
     {s s1 s' : σ} {vp : GoVal → Prop} (hput : PutOK mc hook c I pb vp s s1) (hvp : ∀ id, vp (.href id))
     (hf : FragsGN mc hook c I fs (kvs.map fun kv => [kv.1, kv.2]) s1 s')
     (hkeys : keysOK mc.cfg false (goOfPairs kvs) = true) :
-    PushesG mc hook c I ((if p ≥ 1 then [125] else [40, 100]) ++ pb ++ cpBatchDict p fs) (.dict kvs) s s' := by
+    PushesG mc hook c I ((if p ≥ 1 then [125] else [40, 100]) ++ pb ++ cpBatchDict py p fs) (.dict kvs) s s' := by
   have hlen : fs.length = kvs.length := by simpa using hf.length
-  obtain ⟨gs, e1, e2⟩ := batchDict_groups p (fs.zip kvs)
+  obtain ⟨gs, e1, e2⟩ := batchDict_groups py p (fs.zip kvs)
   rw [List.map_fst_zip (by omega)] at e1
   have hsnd : (fs.zip kvs).map (·.2) = kvs := List.map_snd_zip (by omega)
   have hfst : (fs.zip kvs).map (·.1) = fs := List.map_fst_zip (by omega)
@@ -339,8 +339,8 @@ theorem pushesG_of_eq {c : ECfg} {σ : Type} {I : σ → DState → Prop} {s s' 
 
 mutual
 /-- `save(obj)`: what is written, read by the decoder from any state, pushes one value representing the object. -/
-theorem pk_val (hlr : mc.listRef = false) (p : Nat) : (v : PyObj) → (n : Nat) → (b : Bytes) → (n' : Nat) →
-    pkOK mc.cfg p v → cpSave p v n = some (b, n') → PushesG mc hook (ecfg p) ITriv b v () ()
+theorem pk_val (hlr : mc.listRef = false) (py : Bool) (p : Nat) : (v : PyObj) → (n : Nat) → (b : Bytes) → (n' : Nat) →
+    pkOK mc.cfg p v → cpSave py p v n = some (b, n') → PushesG mc hook (ecfg p) ITriv b v () ()
   | .none, n, b, n', _, hs => by
     simp only [cpSave, Option.some.injEq, Prod.mk.injEq] at hs
     obtain ⟨rfl, _⟩ := hs
@@ -400,13 +400,13 @@ theorem pk_val (hlr : mc.listRef = false) (p : Nat) : (v : PyObj) → (n : Nat) 
         simp only [RepG]; exact ⟨[], hr, by simp [RepGList]⟩
       · exact pushesG_tupleMark MemoOnly.trivial [] [] (PushesGN.nil ())
     · simp only [hemp, Bool.false_eq_true, if_false] at hs
-      cases hsl : cpSaveList p xs n with
+      cases hsl : cpSaveList py p xs n with
       | none => simp [hsl] at hs
       | some r =>
         obtain ⟨fs, n1⟩ := r
         simp only [hsl, Option.some.injEq, Prod.mk.injEq] at hs
         obtain ⟨rfl, _⟩ := hs
-        have hfr := pk_list hlr p xs n fs n1 hok hsl
+        have hfr := pk_list hlr py p xs n fs n1 hok hsl
         have hi := FragsGN.flatten hfr
         rw [flatten_map_single] at hi
         have hne : 1 ≤ xs.length := by
@@ -424,27 +424,27 @@ theorem pk_val (hlr : mc.listRef = false) (p : Nat) : (v : PyObj) → (n : Nat) 
   | .list xs, n, b, n', hok, hs => by
     simp only [pkOK] at hok
     simp only [cpSave] at hs
-    cases hsl : cpSaveList p xs (n + 1) with
+    cases hsl : cpSaveList py p xs (n + 1) with
     | none => simp [hsl] at hs
     | some r =>
       obtain ⟨fs, n1⟩ := r
       simp only [hsl, Option.some.injEq, Prod.mk.injEq] at hs
       obtain ⟨rfl, _⟩ := hs
-      exact pushesG_list MemoOnly.trivial hlr p (cpPut p n) xs fs (PutOK.trivial p n (fun _ => True)) trivial
-        (pk_list hlr p xs (n + 1) fs n1 hok hsl)
+      exact pushesG_list MemoOnly.trivial hlr py p (cpPut p n) xs fs (PutOK.trivial p n (fun _ => True)) trivial
+        (pk_list hlr py p xs (n + 1) fs n1 hok hsl)
   | .dict kvs, n, b, n', hok, hs => by
     simp only [pkOK] at hok
     simp only [cpSave] at hs
-    cases hsl : cpSavePairs p kvs (n + 1) with
+    cases hsl : cpSavePairs py p kvs (n + 1) with
     | none => simp [hsl] at hs
     | some r =>
       obtain ⟨fs, n1⟩ := r
       simp only [hsl, Option.some.injEq, Prod.mk.injEq] at hs
       obtain ⟨rfl, _⟩ := hs
-      exact pushesG_dict MemoOnly.trivial p (cpPut p n) kvs fs (PutOK.trivial p n (fun _ => True)) (fun _ => trivial)
-        (pk_pairs hlr p kvs (n + 1) fs n1 hok.1 hsl) hok.2
-theorem pk_list (hlr : mc.listRef = false) (p : Nat) : (xs : List PyObj) → (n : Nat) → (fs : List Bytes) → (n' : Nat) →
-    pkOKList mc.cfg p xs → cpSaveList p xs n = some (fs, n') → FragsGN mc hook (ecfg p) ITriv fs (xs.map fun x => [x]) () ()
+      exact pushesG_dict MemoOnly.trivial py p (cpPut p n) kvs fs (PutOK.trivial p n (fun _ => True)) (fun _ => trivial)
+        (pk_pairs hlr py p kvs (n + 1) fs n1 hok.1 hsl) hok.2
+theorem pk_list (hlr : mc.listRef = false) (py : Bool) (p : Nat) : (xs : List PyObj) → (n : Nat) → (fs : List Bytes) → (n' : Nat) →
+    pkOKList mc.cfg p xs → cpSaveList py p xs n = some (fs, n') → FragsGN mc hook (ecfg p) ITriv fs (xs.map fun x => [x]) () ()
   | [], n, fs, n', _, hs => by
     simp only [cpSaveList, Option.some.injEq, Prod.mk.injEq] at hs
     obtain ⟨rfl, _⟩ := hs
@@ -452,21 +452,21 @@ theorem pk_list (hlr : mc.listRef = false) (p : Nat) : (xs : List PyObj) → (n 
   | x :: xs, n, fs, n', hok, hs => by
     simp only [pkOKList] at hok
     simp only [cpSaveList] at hs
-    cases h1 : cpSave p x n with
+    cases h1 : cpSave py p x n with
     | none => simp [h1] at hs
     | some r1 =>
       obtain ⟨b, n1⟩ := r1
       simp only [h1] at hs
-      cases h2 : cpSaveList p xs n1 with
+      cases h2 : cpSaveList py p xs n1 with
       | none => simp [h2] at hs
       | some r2 =>
         obtain ⟨fs2, n2⟩ := r2
         simp only [h2, Option.some.injEq, Prod.mk.injEq] at hs
         obtain ⟨rfl, _⟩ := hs
         simp only [List.map_cons, FragsGN]
-        exact ⟨(), (pk_val hlr p x n b n1 hok.1 h1).toN, pk_list hlr p xs n1 fs2 n2 hok.2 h2⟩
-theorem pk_pairs (hlr : mc.listRef = false) (p : Nat) : (kvs : List (PyObj × PyObj)) → (n : Nat) → (fs : List Bytes) → (n' : Nat) →
-    pkOKPairs mc.cfg p kvs → cpSavePairs p kvs n = some (fs, n') → FragsGN mc hook (ecfg p) ITriv fs (kvs.map fun kv => [kv.1, kv.2]) () ()
+        exact ⟨(), (pk_val hlr py p x n b n1 hok.1 h1).toN, pk_list hlr py p xs n1 fs2 n2 hok.2 h2⟩
+theorem pk_pairs (hlr : mc.listRef = false) (py : Bool) (p : Nat) : (kvs : List (PyObj × PyObj)) → (n : Nat) → (fs : List Bytes) → (n' : Nat) →
+    pkOKPairs mc.cfg p kvs → cpSavePairs py p kvs n = some (fs, n') → FragsGN mc hook (ecfg p) ITriv fs (kvs.map fun kv => [kv.1, kv.2]) () ()
   | [], n, fs, n', _, hs => by
     simp only [cpSavePairs, Option.some.injEq, Prod.mk.injEq] at hs
     obtain ⟨rfl, _⟩ := hs
@@ -474,25 +474,25 @@ theorem pk_pairs (hlr : mc.listRef = false) (p : Nat) : (kvs : List (PyObj × Py
   | (k, v) :: kvs, n, fs, n', hok, hs => by
     simp only [pkOKPairs] at hok
     simp only [cpSavePairs] at hs
-    cases h1 : cpSave p k n with
+    cases h1 : cpSave py p k n with
     | none => simp [h1] at hs
     | some r1 =>
       obtain ⟨bk, n1⟩ := r1
       simp only [h1] at hs
-      cases h2 : cpSave p v n1 with
+      cases h2 : cpSave py p v n1 with
       | none => simp [h2] at hs
       | some r2 =>
         obtain ⟨bv, n2⟩ := r2
         simp only [h2] at hs
-        cases h3 : cpSavePairs p kvs n2 with
+        cases h3 : cpSavePairs py p kvs n2 with
         | none => simp [h3] at hs
         | some r3 =>
           obtain ⟨fs3, n3⟩ := r3
           simp only [h3, Option.some.injEq, Prod.mk.injEq] at hs
           obtain ⟨rfl, _⟩ := hs
           simp only [List.map_cons, FragsGN]
-          refine ⟨(), ?_, pk_pairs hlr p kvs n2 fs3 n3 hok.2.2 h3⟩
-          have := PushesGN.append (pk_val hlr p k n bk n1 hok.1 h1).toN (pk_val hlr p v n1 bv n2 hok.2.1 h2).toN
+          refine ⟨(), ?_, pk_pairs hlr py p kvs n2 fs3 n3 hok.2.2 h3⟩
+          have := PushesGN.append (pk_val hlr py p k n bk n1 hok.1 h1).toN (pk_val hlr py p v n1 bv n2 hok.2.1 h2).toN
           simpa using this
 end
 
